@@ -27,6 +27,7 @@
 #      along with this program.  If not, see <https://www.gnu.org/licenses/>.
 
 """Handling for snapshot actions."""
+import dis
 from types import FrameType
 from typing import Tuple, Optional, TYPE_CHECKING
 
@@ -218,13 +219,30 @@ class DeferredSnapshotActionCallback(ActionCallback):
         :param arg: the arg from settrace
         :return: True, to keep this callback until next match.
         """
-        if event in ['exception', 'return']:
+        if event == 'exception' or (event == 'return' and self.__is_returning(frame)):
             watch, new_vars, _ = self.__action_context.process_capture_variable(event, arg, later=True)
             self.__snapshot.add_watch_result(watch)
             self.__snapshot.merge_var_lookup(new_vars)
 
         ctx.push_service.push_snapshot(self.__snapshot)
         return False
+
+    @staticmethod
+    def __is_returning(frame: FrameType) -> bool:
+        """
+        Tell if the 'return' event of a frame stands for a value being returned.
+
+        Python sends the event also when a generator or a coroutine is suspended (with the value it hands out) and,
+        with None, when an exception leaves the function: neither is a result of the function.
+
+        :param frame: the frame the event is for
+        :return: False, if the frame has not stopped at a return
+        """
+        try:
+            return dis.opname[frame.f_code.co_code[frame.f_lasti]].startswith('RETURN_')
+        except BaseException:
+            # not a frame we can read: the event is all we know
+            return True
 
 
 class SendSnapshotActionResult(DeferredSnapshotActionResult):
